@@ -114,9 +114,12 @@ def _prune(keep):
         return
     ents.sort(key=lambda e: os.path.getmtime(os.path.join(CACHE, e)), reverse=True)
     now = time.time()
-    for e in ents[2:]:
+    for n_, e in enumerate(ents[2:]):
         # never remove a cache that was used recently: another check may be running against that tree
-        if now - os.path.getmtime(os.path.join(CACHE, e)) > 3 * 3600 or len(ents) > 12:
+        age = now - os.path.getmtime(os.path.join(CACHE, e))
+        if e == "run" or e.endswith(".lock"):
+            continue
+        if age > 3 * 3600 or (n_ > 20 and age > 1800):
             shutil.rmtree(os.path.join(CACHE, e), ignore_errors=True)
 
 
